@@ -68,6 +68,7 @@ int close(int fd)
 #ifndef C06_CANON_CONTRACT
 #include "lib/util/src/canonicalize_name.c"
 #endif
+#undef assert
 #define assert(c) VERIF_ASSERT((c), "C06.create.canon_ok")
 #include "bin/rdsquashfs/src/restore_fstree.c"
 
@@ -98,18 +99,18 @@ void harness(void)
 	ENV_CHECK_LOG("C06.create.path_pre");
 
 	/* which entries does the walk have to look at? */
-	visited[0] = !S_ISDIR(g_inodes[0].i.base.mode);
+	visited[0] = !S_ISDIR(TI(0)->i.base.mode);
 	good[0] = true;
 	for (k = 1; k < NNODES; ++k) {
 		int p = g_parent[k];
-		const char *nm = (const char *)g_nodes[k].name;
+		const char *nm = (const char *)TN(k)->name;
 
 		good[k] = spec_component_ok(nm);
 		if (p == 0) {
-			visited[k] = S_ISDIR(g_inodes[0].i.base.mode);
+			visited[k] = S_ISDIR(TI(0)->i.base.mode);
 		} else {
 			visited[k] = visited[p] && good[p] &&
-				S_ISDIR(g_inodes[p].i.base.mode);
+				S_ISDIR(TI(p)->i.base.mode);
 		}
 		if (visited[k] && !good[k]) {
 			if (nm[0] == '\0')
@@ -118,7 +119,7 @@ void harness(void)
 				++nbad;
 		}
 		if (visited[k] && good[k] &&
-		    is_known_kind(g_inodes[k].i.base.mode))
+		    is_known_kind(TI(k)->i.base.mode))
 			++ngood_known;
 	}
 
@@ -126,8 +127,8 @@ void harness(void)
 	if (ret == 0) {
 		VERIF_ASSERT(nempty == 0, "C06.skip_reports");
 		VERIF_ASSERT(g_stderr_msgs >= nbad, "C06.skip_reports");
-		if (g_nodes[0].name[0] == '\0' &&
-		    S_ISDIR(g_inodes[0].i.base.mode)) {
+		if (TN(0)->name[0] == '\0' &&
+		    S_ISDIR(TI(0)->i.base.mode)) {
 			VERIF_ASSERT(g_nsys == ngood_known,
 				     "C06.create.complete");
 		}
@@ -136,8 +137,10 @@ void harness(void)
 	}
 	VERIF_ASSERT(g_nsys <= NNODES, "C06.create.once_per_node");
 
-	VERIF_COVER(ret == 0 && g_nsys == NNODES - 1 && NNODES > 1);
+#if NNODES > 1
+	VERIF_COVER(ret == 0 && g_nsys == NNODES - 1);
 	VERIF_COVER(ret == 0 && nbad > 0);
+#endif
 	VERIF_COVER(ret == -1);
 	VERIF_COVER(g_used[NNODES - 1]);
 }
